@@ -497,3 +497,60 @@ Print Assumptions C13_oov_id_on_best_path.
 Theorem C13_oov_id_models_agree : forall pos, Model.LexSet.oov_id pos = wid_oov pos.
 Proof. exact (fun pos => eq_refl). Qed.
 Print Assumptions C13_oov_id_models_agree.
+
+(* ================================================================== which definition files the candidates come from
+   The MeCab provider's charDef and unkDef and the dictionary's characterDefinitionFile are located by ONE function,
+   Config::complete_path (Model/PathResolve.v, builder E's model for C17): no private search order.  Hence, for every
+   settings file, resource directory, `path` and presence pattern of the files: the definitions come from the FIRST of
+   `path`, the resource directory, the settings-file directory (in this order) that holds a file of the name, then from the
+   working directory, else loading fails. *)
+From SudachiVerif Require Model.PathResolve Proofs.PathResolveProofs Generated.PathResolveFacts.
+
+(* both files of MeCabOovPlugin::set_up are `config.complete_path(<setting or default name>)`, opened as they are (exactly two
+   File::open, no path building of its own); from_cfg_storage resolves characterDefinitionFile the same way *)
+Fact C13_fact_definition_files_resolved_by_complete_path :
+  OF.mecab_definition_files = [("charDef", "complete_path:char.def"); ("unkDef", "complete_path:unk.def")]%string
+  /\ OF.character_definition_file_resolution = "complete_path"%string.
+Proof. vm_compute. split; reflexivity. Qed.
+
+(* ... and complete_path is the function the model describes: anchors added in the order path, resource directory, root
+   (settings-file) directory; first existing anchor; then the working directory; then an error *)
+Fact C13_fact_resolution_order :
+  Generated.PathResolveFacts.anchor_order = ["path"; "resource_dir"; "rootDirectory"]%string
+  /\ Generated.PathResolveFacts.first_existing_body = "self.all_candidates(path).find(|p|p.exists())"%string
+  /\ Generated.PathResolveFacts.all_candidates_body = "self.roots.iter().map(move|root|root.join(path.clone()))"%string
+  /\ Generated.PathResolveFacts.complete_path_steps
+     = ["pref.is_absolute()=>Ok(file_path.into())"; "Some=self.resolver.first_existing(pref)=>Ok(p)";
+        "pref.exists()=>Ok(file_path.into())"; "otherwise=>Err"]%string.
+Proof. vm_compute. repeat split; reflexivity. Qed.
+
+Theorem C13_definition_file_is_first_existing_anchor :
+  forall (dir file : Type) (is_absolute : file -> bool) (exists_in : dir -> file -> bool) (exists_cwd : file -> bool)
+         (roots : list dir) (f : file),
+    match Model.PathResolve.complete_path dir file is_absolute exists_in exists_cwd roots f with
+    | Model.PathResolve.AsIs => is_absolute f = true
+    | Model.PathResolve.InAnchor d =>
+        is_absolute f = false /\
+        exists pre post, roots = (pre ++ d :: post)%list /\ exists_in d f = true /\ forall x, In x pre -> exists_in x f = false
+    | Model.PathResolve.InCwd => is_absolute f = false /\ (forall x, In x roots -> exists_in x f = false) /\ exists_cwd f = true
+    | Model.PathResolve.NotFound => is_absolute f = false /\ (forall x, In x roots -> exists_in x f = false) /\ exists_cwd f = false
+    end.
+Proof. exact Proofs.PathResolveProofs.complete_path_spec. Qed.
+Print Assumptions C13_definition_file_is_first_existing_anchor.
+
+(* with three different directories the anchors are path, resource directory, settings-file directory: the resource directory
+   beats the settings-file directory, `path` beats both *)
+Theorem C13_definition_file_anchor_order :
+  forall (dir : Type) (eqb : dir -> dir -> bool) p r o,
+    eqb r p = false -> eqb o p = false -> eqb o r = false ->
+    Model.PathResolve.anchors dir eqb (Some p) r (Some o) = [p; r; o].
+Proof. exact Proofs.PathResolveProofs.anchors_order. Qed.
+Print Assumptions C13_definition_file_anchor_order.
+
+(* what the OOV providers do when a key is absent from their settings: the Regex provider searches at most 32 characters, in strict boundary mode, not in debug mode; no provider may introduce a part of speech (userPOS forbid); the pattern is required
+   (Generated/PluginDefaults.v reads both spellings of every settings struct: Option + unwrap_or, serde default) *)
+From SudachiVerif Require Generated.PluginDefaults.
+Fact C13_fact_provider_setting_defaults :
+  forallb (fun kv => existsb (fun x => (String.eqb (fst x) (fst kv) && String.eqb (snd x) (snd kv))%bool) Generated.PluginDefaults.when_absent)
+          [("regex_oov.maxLength", "32"); ("regex_oov.boundaries", "Strict"); ("regex_oov.debug", "false"); ("regex_oov.userPOS", "Forbid"); ("regex_oov.regex", "required"); ("simple_oov.userPOS", "Forbid"); ("mecab_oov.userPOS", "Forbid")]%string = true.
+Proof. vm_compute. reflexivity. Qed.
